@@ -5,6 +5,7 @@ import Ipv8.C11.GenOverlays
 open Ipv8 Ipv8.C11
 
 structure DState where
+  svc : Svc := {}
   w : World := {}
   tm : TM := {}
   seen : Nat := 0        -- log entries already reported
@@ -69,6 +70,17 @@ def step (st : DState) (toks : List String) : DState × String :=
   match toks with
   | ["reset", a, r] =>
       ({ w := { fwdAdd := a == "1", fwdRemove := r == "1" } }, "ok")
+  | ["s", "reset"] => ({ st with svc := {} }, "ok")
+  | ["s", "add", o, sid] =>
+      match o.toNat?, sid.toNat? with
+      | some o, some sid => ({ st with svc := st.svc.addStrategy o sid }, "ok")
+      | _, _ => (st, "bad-op")
+  | ["s", "unload", o] =>
+      match o.toNat? with
+      | some o => ({ st with svc := st.svc.unloadOverlay o }, "ok")
+      | none => (st, "bad-op")
+  | ["s", "list"] =>
+      (st, s!"overlays={Proto.showNatList st.svc.overlays} strategies={Proto.showStrList (st.svc.stepped.map (fun e => s!"{e.1}:{e.2}"))}")
   | ["gen"] =>
       (st, s!"fwdAdd={b01 Gen.tunnelEndpointForwardsAdd} fwdRemove={b01 Gen.tunnelEndpointForwardsRemove} " ++
            s!"delay={Gen.defaultRemoveDelay} classes={Proto.showStrList (Gen.classes.map (·.name))}")
